@@ -398,7 +398,7 @@ impl Check for C14
 	}
 	fn rule(&self) -> String
 	{
-		"streams: (a) every string of length <= 3 (quick) / <= 4 (thorough) over a 48-symbol alphabet of Penne-relevant characters (exhaustive); (b) random sequences of valid tokens in random spellings/layouts whose expected tokens, values, spans and lines are known from the generator; (c) each of 56 malformed lexemes planted between random valid tokens with its documented code. Oracle: alpha lexer, delta lexer and an independent reference lexer must agree on kinds, payloads, suffix types, byte spans and lines (error tokens: code, line, span inside the malformed lexeme). Non-trivial: the input contains a multi-character token, a literal or an error (a), >= 3 tokens (b), always (c); distinct by source text.".into()
+		"streams: (a) every string of length <= 3 (quick) / <= 4 (thorough) over a 48-symbol alphabet of Penne-relevant characters (exhaustive); (b) random sequences of valid tokens in random spellings/layouts whose expected tokens, values, spans and lines are known from the generator; (c) each of 62 malformed lexemes (six of them literals with two different faults, of which the first is the one reported) planted between random valid tokens with its documented code. Oracle: alpha lexer, delta lexer and an independent reference lexer must agree on kinds, payloads, suffix types, byte spans and lines (error tokens: code, line, span inside the malformed lexeme). Non-trivial: the input contains a multi-character token, a literal or an error (a), >= 3 tokens (b), always (c); distinct by source text.".into()
 	}
 	fn assumptions(&self) -> Vec<String>
 	{
